@@ -25,7 +25,10 @@ type formatT struct {
 	name   string
 	decode func(b []byte) (any, error)
 	encode func(v any) ([]byte, error)
-	ident  func(v any) string // reported hash and sizes of the decoded value
+	// canon: the bytes the fixpoint is judged on when encode is not a function of the value alone (a compressed frame
+	// depends on the compressor's internal state: the law is about the payload)
+	canon func(v any) ([]byte, error)
+	ident func(v any) string // reported hash and sizes of the decoded value
 	// binary formats: the decoder run on a recording reader (field map); JSON formats: toBinary re-encodes the value
 	// accepted from JSON in the binary form and decodes it (nil if the format has no binary form)
 	trace    func(b []byte) ([]field, error)
@@ -87,6 +90,10 @@ func messageFormat(name string, srih bool) *formatT {
 		m := v.(*network.Message)
 		// a fresh message around the same payload: Bytes() decides about compression itself
 		return network.NewMessage(m.Command, m.Payload).Bytes()
+	}
+	f.canon = func(v any) ([]byte, error) {
+		m := v.(*network.Message)
+		return network.NewMessage(m.Command, m.Payload).BytesCompressed(false)
 	}
 	f.ident = func(v any) string {
 		m := v.(*network.Message)
@@ -203,12 +210,27 @@ func binaryFormats(ks map[string]*kindT) map[string]*formatT {
 	for _, n := range []string{"changeview", "preparerequest", "prepareresponse", "commit", "recoveryrequest", "recoverymessage"} {
 		f := kindFormat(ks, "consensus-"+n, "consensus", false, nil)
 		f.trace = func(b []byte) ([]field, error) {
-			// outer extensible fields, then the fields of the dBFT message inside Data (through the real decoder on a recording reader)
+			// the dBFT message travels as the Data of an extensible payload and is decoded from a buffer of its own:
+			// every byte of Data is a field here (the message types are private, their layout is not restated), followed
+			// by the fields of the witness
 			fs, err := traceFields(b, func(r *io.BinReader) { payload.NewExtensible().DecodeBinary(r) })
 			if err != nil {
 				return fs, err
 			}
-			return fs, nil
+			var out []field
+			for _, x := range fs {
+				if x.n > 40 && len(out) == 0 { // Data: the first long field after category / sender
+					for i := 0; i < x.n; i++ {
+						out = append(out, field{x.off + i, 1})
+					}
+				} else if len(out) > 0 {
+					out = append(out, x)
+				}
+			}
+			if len(out) == 0 {
+				return fs, nil
+			}
+			return out, nil
 		}
 		add(f)
 	}
@@ -225,6 +247,14 @@ func binaryFormats(ks map[string]*kindT) map[string]*formatT {
 		return traceFields(b, func(r *io.BinReader) { arriveReader("nef", r) })
 	}
 	add(kindFormat(ks, "item-protected", "item", false, nil))
+	m["item-protected"].encode = func(v any) ([]byte, error) { // the marker of an invalid item is a legal output of this form
+		w := io.NewBufBinWriter()
+		stackitem.EncodeBinaryProtected(v.(*itemObj).it, w.BinWriter)
+		if w.Err != nil {
+			return nil, w.Err
+		}
+		return w.Bytes(), nil
+	}
 	m["item-protected"].trace = func(b []byte) ([]field, error) {
 		return traceFields(b, func(r *io.BinReader) { stackitem.DecodeBinaryProtected(r) })
 	}
